@@ -524,7 +524,7 @@ def domain_of(f, sig):
 
 
 def online_flat(f, sig, cuts=(), **kw):
-    text, out = run_online(f, sig, list(cuts), **kw)
+    text, out = run_online(f, sig, cuts if isinstance(cuts, dict) else list(cuts), **kw)
     if out[0] != "ok":
         return text, out
     return text, ("ok", [p for chunk in out[1] for p in chunk])
@@ -559,7 +559,14 @@ def _law_stream(ctx):
             sig = window_signals(rng, vs) if rng.random() < 0.4 else gen_signals(rng, vs)
             ctx.evaluations += 1
             ctx.count("law:%s/%s" % (name, mon))
-            v = check_law(ctx, mon, name, lhs, rhs, sig)
+            # the online monitor is fed in several updates (the same way on both sides), also per variable and with variables
+            # left out of a call
+            cuts = []
+            if mon == "onc" and rng.random() < 0.6:
+                from .props import c05
+                cuts = rng.choice(c05.chunkings(rng, sig, 8))
+                ctx.count("law-online-chunked" + ("/per-variable" if isinstance(cuts, dict) else ""))
+            v = check_law(ctx, mon, name, lhs, rhs, sig, cuts)
             if v is None:
                 ctx.traces_validated += 1
             else:
@@ -601,20 +608,22 @@ def _window_law_stream(ctx):
                 return
 
 
-def check_law(ctx, mon, name, lhs, rhs, sig):
+def check_law(ctx, mon, name, lhs, rhs, sig, cuts=()):
+    cuts = cuts if isinstance(cuts, dict) else list(cuts)
     if mon == "offc":
         tl, l = eval_offline(lhs, sig)
         tr, r = eval_offline(rhs, sig)
     else:
-        tl, l0 = run_online(lhs, sig, [])
-        tr, r0 = run_online(rhs, sig, [])
+        tl, l0 = run_online(lhs, sig, cuts)
+        tr, r0 = run_online(rhs, sig, cuts)
         if not hasattr(ctx, "pending_mirror"):
             ctx.pending_mirror = []
-        ctx.pending_mirror += [(lhs, sig, [], tl, l0), (rhs, sig, [], tr, r0)]
+        ctx.pending_mirror += [(lhs, sig, cuts, tl, l0), (rhs, sig, cuts, tr, r0)]
         l = ("ok", [p for chunk in l0[1] for p in chunk]) if l0[0] == "ok" else l0
         r = ("ok", [p for chunk in r0[1] for p in chunk]) if r0[0] == "ok" else r0
+    from .props import c05 as _c05
     rep = {"law": name, "monitor": mon, "lhs": tl, "rhs": tr, "lhs_proto": F.to_proto(lhs), "rhs_proto": F.to_proto(rhs),
-           "signals": sig_rep(sig), "impl_lhs": l, "impl_rhs": r}
+           "signals": sig_rep(sig), "cuts": _c05.cuts_txt(cuts), "impl_lhs": l, "impl_rhs": r}
     if l[0] != "ok" or r[0] != "ok":
         return Violation("law %s on the %s monitor: evaluation raised %r / %r (%s)" % (name, mon, l[:2], r[:2], tl), rep, stream="laws-c")
     a, b = samples_of(l[1]), samples_of(r[1])
@@ -635,8 +644,11 @@ def check_law(ctx, mon, name, lhs, rhs, sig):
 
 
 def replay_law(ctx, obj):
+    cuts = obj.get("cuts") or []
+    cuts = {v: ([int(c) for c in cs] if v.startswith("@") else [Fraction(c) for c in cs]) for v, cs in cuts.items()} \
+        if isinstance(cuts, dict) else [Fraction(c) for c in cuts]
     v = check_law(Ctx(ctx.id, ctx.tier, ctx.seed), obj["monitor"], obj["law"], F.from_proto(obj["lhs_proto"]),
-                  F.from_proto(obj["rhs_proto"]), sig_of_rep(obj["signals"]))
+                  F.from_proto(obj["rhs_proto"]), sig_of_rep(obj["signals"]), cuts)
     return (v is None), (v.what if v else "both sides agree")
 
 
@@ -987,19 +999,28 @@ def ia_stream(ctx):
             vs = F.variables(f) or ["x"]
             io = {v: rng.choice(["input", "output"]) for v in vs if rng.random() < 0.8}
             sig = gen_signals(rng, vs)
-        cases.append((mon, f, sig, sem, io))
+        # the online monitor is fed in several updates, also with batches that differ between the variables and with
+        # variables left out of a call (an operation that gets no new sample in an update must not return old ones)
+        cuts = []
+        if mon == "onc" and rng.random() < 0.6:
+            from .props import c05
+            cuts = rng.choice(c05.chunkings(rng, sig, 8))
+        cases.append((mon, f, sig, sem, io, cuts))
     tfs = [F.from_proto(o[3:]) for o in common.driver_run(["ia | %s | %s | %s" % (sem, ",".join(v for v, t in io.items() if t == "input"),
-                                                                                   F.to_proto(f)) for _, f, _, sem, io in cases])]
-    doms = model_query([(f, sig, []) for _, f, sig, _, _ in cases])
+                                                                                   F.to_proto(f)) for _, f, _, sem, io, _ in cases])]
+    doms = model_query([(f, sig, []) for _, f, sig, _, _, _ in cases])
     pend = []
-    for (mon, f, sig, sem, io), tf, (_, dom, end) in zip(cases, tfs, doms):
+    for (mon, f, sig, sem, io, cuts), tf, (_, dom, end) in zip(cases, tfs, doms):
         if end is None:
             end = max([s_[-1][0] for s_ in sig.values()] + [dom])
         ctx.evaluations += 1
         ctx.count("monitor:%s/%s" % (mon, sem))
         kw = dict(semantics=c06.SEMS[sem], io=io)
-        text, out = eval_offline(f, sig, **kw) if mon == "offc" else online_flat(f, sig, **kw)
-        rep = {"monitor": mon, "semantics": sem, "io": io, "spec": text, "formula": F.to_proto(f), "transformed": F.to_proto(tf),
+        text, out = eval_offline(f, sig, **kw) if mon == "offc" else online_flat(f, sig, cuts, **kw)
+        if cuts:
+            ctx.count("ia-online-chunked" + ("/per-variable" if isinstance(cuts, dict) else ""))
+        from .props import c05 as _c05
+        rep = {"cuts": _c05.cuts_txt(cuts), "monitor": mon, "semantics": sem, "io": io, "spec": text, "formula": F.to_proto(f), "transformed": F.to_proto(tf),
                "signals": sig_rep(sig), "impl": out}
         if out[0] != "ok":
             ctx.violations.append(Violation("dense %s monitor, %s semantics, io=%r raised %r: %s" % (mon, sem, io, out[1:], text), rep,
@@ -1013,8 +1034,8 @@ def ia_stream(ctx):
         lo, hi = (dom, end) if mon == "offc" else (a[0][0], a[-1][0])
         qs = [q for q in query_times(sig, f, [t for t, _ in a], dom, end) if lo <= q <= hi]
         rep["raw"] = out[1]
-        pend.append((mon, sem, io, text, tf, sig, a, qs, rep))
-    allvals = model_query([(tf, sig, qs) for (_, _, _, _, tf, sig, _, qs, _) in pend])
+        pend.append((mon, sem, io, text, tf, sig, a, qs, rep, cuts))
+    allvals = model_query([(tf, sig, qs) for (_, _, _, _, tf, sig, _, qs, _, _) in pend])
     # the mirrors of the list algorithms on the transformed formula (robustness semantics; the vacuity override is not mirrored)
     # (not where a sub-formula takes the value NaN - inf - inf under iff / xor / arithmetic of +-inf -: the driver reports such
     # cases as undefined, all model values NaN)
@@ -1023,15 +1044,15 @@ def ia_stream(ctx):
     ons = [p_ for p_ in clean if p_[0] == "onc"]
     mirr = list(zip(offs, alg_query([(p_[4], p_[5]) for p_ in offs]))) + \
         [(p_, (m[0], [x for row in m[1] for x in row]) if m[0] == "ok" else m)
-         for p_, m in zip(ons, alg_online_query([(p_[4], p_[5], []) for p_ in ons]))]
-    for (mon, sem, io, text, tf, sig, a, qs, rep), m in mirr:
+         for p_, m in zip(ons, alg_online_query([(p_[4], p_[5], p_[9]) for p_ in ons]))]
+    for (mon, sem, io, text, tf, sig, a, qs, rep, cuts), m in mirr:
         ctx.count("ia-mirror:%s/%s" % (mon, m[0] if m[0] != "err" else "err-" + m[1]))
         raw = rep["raw"]
         if m[0] == "ok" and not any(x[1] != x[1] for x in raw) and not same_samples(raw, m[1]):
             ctx.diffs.append(Violation("the mirror of the dense %s list algorithms on the transformed formula gives %r, the monitor under %s "
                                        "semantics returned %r: %s" % ("offline" if mon == "offc" else "online", m[1], sem, raw, text),
                                        dict(rep, mirror=[[str(t), v] for t, v in m[1]]), failing_input=False, stream="ia-c/mirror"))
-    for (mon, sem, io, text, tf, sig, a, qs, rep), (vals, _, _) in zip(pend, allvals):
+    for (mon, sem, io, text, tf, sig, a, qs, rep, cuts), (vals, _, _) in zip(pend, allvals):
         bad = None
         for q, mv in zip(qs, vals):
             iv = step_value(a, q)
@@ -1051,10 +1072,10 @@ def ia_stream(ctx):
                 return
 
 
-def check_ia(ctx, mon, f, sig, sem, io):
+def check_ia(ctx, mon, f, sig, sem, io, cuts=()):
     from .props import c06
     kw = dict(semantics=c06.SEMS[sem], io=io)
-    text, out = eval_offline(f, sig, **kw) if mon == "offc" else online_flat(f, sig, **kw)
+    text, out = eval_offline(f, sig, **kw) if mon == "offc" else online_flat(f, sig, cuts, **kw)
     o = common.driver_run(["ia | %s | %s | %s" % (sem, ",".join(v for v, t in io.items() if t == "input"), F.to_proto(f))])[0]
     tf = F.from_proto(o[3:])
     rep = {"monitor": mon, "semantics": sem, "io": io, "spec": text, "formula": F.to_proto(f), "transformed": F.to_proto(tf),
@@ -1082,7 +1103,7 @@ def check_ia(ctx, mon, f, sig, sem, io):
         m, = alg_query([(tf, sig)])
         raw = out[1]
     else:
-        m, = alg_online_query([(tf, sig, [])])
+        m, = alg_online_query([(tf, sig, cuts)])
         raw = out[1]
         if m[0] == "ok":
             m = ("ok", [p for row in m[1] for p in row])
@@ -1095,8 +1116,11 @@ def check_ia(ctx, mon, f, sig, sem, io):
 
 
 def replay_ia(ctx, obj):
+    cuts = obj.get("cuts") or []
+    cuts = {v: ([int(c) for c in cs] if v.startswith("@") else [Fraction(c) for c in cs]) for v, cs in cuts.items()} \
+        if isinstance(cuts, dict) else [Fraction(c) for c in cuts]
     v = check_ia(Ctx(ctx.id, ctx.tier, ctx.seed), obj["monitor"], F.from_proto(obj["formula"]), sig_of_rep(obj["signals"]),
-                 obj["semantics"], obj["io"])
+                 obj["semantics"], obj["io"], cuts)
     return (v is None), (v.what if v else "IA result agrees with the model")
 
 
